@@ -133,3 +133,33 @@ Section Trace.
     else if String.eqb t (ptag PSE3) then Some (parse_param num parse parse_id wrap PSE3)
     else None.
 End Trace.
+
+(* one export/import cycle on the model, and n of them *)
+Section CycleDef.
+  Variable num : Type.
+  Variable print : num -> string.
+  Variable parse : string -> option num.
+  Variable print_id : Z -> string.
+  Variable parse_id : string -> option Z.
+  Variable wrap : num -> num.
+  Variable normq : list num -> list num.
+  Variable zero : num.
+  Variable eq0 : num -> bool.
+  Variable eqn : num -> num -> bool.
+  Definition cycle (cts : list ctype) (g : graph num) : option (graph num) :=
+    match export num print print_id eq0 eqn g with
+    | Error _ => None
+    | Ok ls => match import num parse parse_id wrap normq zero cts (map render ls) with
+               | Ok (g', _) => Some g'
+               | Error _ => None
+               end
+    end.
+  Fixpoint iter_cycle (cts : list ctype) (n : nat) (g : graph num) : option (graph num) :=
+    match n with
+    | 0 => Some g
+    | S m => match cycle cts g with Some g' => iter_cycle cts m g' | None => None end
+    end.
+  (* x == x on the entries of every SE(3) offset parameter the writer emits (i.e. none of them is NaN) *)
+  Definition offs_refl (g : graph num) : Prop :=
+    forall o v, plookup num (export_params num eqn g) (PSE3, o) = Some v -> list_eqn num eqn v v = true.
+End CycleDef.
